@@ -26,6 +26,7 @@ func init() {
 			"cycle: names a,b,c x require/protected-require of a,b,c + table/fail/failonce, under luapre/gopre/file; host: RegisterModule/module()/table on a,a.b), pruned by (i) last op must be a require/RegisterModule " +
 			"(any other history is observation-equivalent to its prefix, which is enumerated), (ii) interchangeable names appear in first-mention order a,b,c; " +
 			"cache/cycle histories run under every source variant up to length 3 (quick) / 4 (thorough), the longest length under one variant chosen by (index+seed) rotation. " +
+			"stat-failure histories: a regular file where a directory is expected (blk op), names beyond NAME_MAX, a NUL byte: the not-found error must still list every candidate; " +
 			"Random part: seeded histories of length 1-30 over the full alphabet (4 names, all sources, all behaviours, any require target). " +
 			"non-trivial = at least one loader ran and at least two requires (top-level or nested) were evaluated; distinct by content hash of (family, source variant, ops)",
 		Assumptions: []string{
